@@ -7,6 +7,7 @@ import (
 	"os/exec"
 	"path/filepath"
 	"sort"
+	"strconv"
 	"strings"
 	"sync"
 )
@@ -70,6 +71,29 @@ func runSelftest(propID, repo string) selftestResult {
 				jobs = append(jobs, job{k, false})
 			}
 		}
+	}
+	// the behaviour-preserving corpus is large: replay a rotating sample of it (VERIF_SEED picks the window),
+	// every breaking patch recorded for this property is always replayed
+	{
+		const maxBenign = 60
+		seed, _ := strconv.Atoi(os.Getenv("VERIF_SEED"))
+		var ben, brk []job
+		for _, j := range jobs {
+			if j.benign {
+				ben = append(ben, j)
+			} else {
+				brk = append(brk, j)
+			}
+		}
+		if len(ben) > maxBenign {
+			start := (seed * 17) % len(ben)
+			var pick []job
+			for i := 0; i < maxBenign; i++ {
+				pick = append(pick, ben[(start+i*len(ben)/maxBenign)%len(ben)])
+			}
+			ben = pick
+		}
+		jobs = append(brk, ben...)
 	}
 	exe, _ := os.Executable()
 	env := append(os.Environ(), "GOFLAGS=-mod=mod", "GOPROXY=off", "GOSUMDB=off", "GOTOOLCHAIN=local", "GOWORK=off")
